@@ -911,6 +911,8 @@ impl Interpreter {
         use crate::compiler::Compiler;
         use bytecode_vm::BytecodeVM;
 
+        self.reset_execution_state();
+
         // Set main module path if this is the entry point
         if self.main_module_path.is_none() {
             self.main_module_path = module_path.clone();
@@ -977,6 +979,18 @@ impl Interpreter {
         }
 
         result
+    }
+
+    /// Start a new program from a clean execution state.
+    ///
+    /// A previous run that ended with an uncaught error, was abandoned by the host in the
+    /// middle of a call, or left block scopes through break/continue may have left its
+    /// scopes, environment guards and call-stack entries installed. A new program always
+    /// starts in the global environment with an empty call stack.
+    fn reset_execution_state(&mut self) {
+        self.env = self.global_env.cheap_clone();
+        self.env_guards.clear();
+        self.call_stack.clear();
     }
 
     /// Create a module namespace object from current exports and store in loaded_modules
@@ -1397,6 +1411,8 @@ impl Interpreter {
     ) -> Result<StepResult, JsError> {
         use crate::compiler::Compiler;
         use bytecode_vm::BytecodeVM;
+
+        self.reset_execution_state();
 
         // Set main module path if this is the entry point
         if self.main_module_path.is_none() {
